@@ -253,6 +253,7 @@ def run(rep, facts, tier):
     rule_09_5(rep, fx, eps)
     rule_09_6(rep, fx)
     rule_09_7(rep, fx)
+    rule_09_8(rep, fx)
 
 
 # hazard key -> (class, reason); sites on the pinned tree, each read and judged
@@ -337,6 +338,10 @@ def rule_09_6(rep, fx):
                 for goal in [(r, 'term') for r in b.return_blocks()] + [(pb, 'term')]:
                     if P.can_reach((t_, 0), goal, avoid_pos=sinks):
                         ok = False
+            if not ok and some and sinks:
+                # a path that ends the iteration without the hand-over is tolerable only where the change is undeliverable by construction: a dispose on a NO_KEY topic
+                # (feasible paths evaluated store-aware; anything else is a report)
+                ok = _only_nokey_disposes_dropped(fx, b, og, pb, some, sinks)
             rep.check(ok, 'R09.6', '%s/pull#%d' % (b.key, n), 'each pulled change is handed to the sample cache before the next pull / return',
                       '%s can pull a change out of the receive cache and return (or pull again) without storing it in the sample cache: the change is consumed but never delivered' % b.key, b.where(pb))
     rep.floor('R09.6', n, 1, 'places where a DataReader pulls changes from its SimpleDataReader')
@@ -365,3 +370,111 @@ def rule_09_7(rep, fx):
                   '%s builds its iterator with %s: the batch ends at the first change that does not unwrap to a value (e.g. a dispose on a NO_KEY topic); for the into_* forms the rest '
                   'of the batch is already removed from the cache and is lost' % (b.key, ', '.join(bad)), b.where())
     rep.floor('R09.7', n, 8, 'iterator forms of the with_key and no_key DataReader')
+
+
+def _nokey_eq_blocks(b, og):
+    """Blocks whose terminator is `<TopicKind as PartialEq>::eq(topic.kind(), NoKey)`."""
+    out = set()
+    for bb, t in b.calls():
+        if t['f'].get('def') == 'std::cmp::PartialEq::eq' and 'TopicKind' in (t['f'].get('self_ty') or ''):
+            a = [og.of_operand(x, bb, 'term') for x in t['args']]
+            if any(term_has(x, lambda z: z[0] == 'call' and z[1].endswith('Topic::kind')) for x in a) and any(term_has(x, lambda z: 'NoKey' in str(z)) for x in a):
+                out.add(bb)
+    return out
+
+
+def _path_facts(st, nokey_calls):
+    """(topic kind is NoKey on this path: True / False / None, the pulled change is a dispose: True / False / None)"""
+    from rdv.sympath import term_find
+    nokey = dispose = None
+    for ev in st.trace:
+        if ev[0] == 'switch' and ev[2][0] == 'call' and len(ev[2]) > 3 and ev[2][3] in nokey_calls:
+            nokey = (ev[3] != [0])
+    for val, names, is_ in st.variants:
+        if term_find(val, lambda z: z[0] == 'fld' and z[1] == 'sample'):
+            if is_ and names:
+                dispose = (tuple(names) == ('Dispose',)) if 'Dispose' in names else False
+            elif not is_ and 'Dispose' in names:
+                dispose = False
+    return nokey, dispose
+
+
+def _only_nokey_disposes_dropped(fx, b, og, pull_bb, some_edges, sinks):
+    from rdv.sympath import SymPath
+    nokey_calls = _nokey_eq_blocks(b, og)
+    if not nokey_calls:
+        return False
+    sink_blocks = set(bb for bb, _k in sinks)
+    heads = set(l[0] for l in natural_loops(b))
+    enders = set(b.return_blocks())
+    for bb in b.live_blocks():
+        if any(sx in heads for sx in b.succs(bb)):
+            enders.add(bb)            # source of a back edge: the iteration ends here
+    sp = SymPath(b, fx)
+    n = 0
+    for g in sorted(enders):
+        for path in sp.paths(0, g, through_heads=True, avoid=tuple(sink_blocks)):
+            if not any((path[i], path[i + 1]) in set(some_edges) for i in range(len(path) - 1)):
+                continue
+            st = sp.run(path, 'term')
+            if st.infeasible:
+                continue
+            n += 1
+            nokey, dispose = _path_facts(st, nokey_calls)
+            if not (nokey is True and dispose is True):
+                return False
+    return n > 0
+
+
+def rule_09_8(rep, fx):
+    """Nothing invisible counts against a bound. The no_key facade drops disposes from what the keyed DataReader returns *after* max_samples was applied there; a dispose
+    in the keyed sample cache of a NO_KEY topic therefore makes take_next_sample() report None, and take(n)/read(n) come back short, while samples are available."""
+    from rdv.sympath import SymPath
+    rep.rule('R09.8', 'nothing invisible counts against a bound: wherever the no_key DataReader drops elements (from_with_key / from_with_key_ref == None) from a bounded result '
+                      'of the keyed DataReader, either the query is re-issued in a loop until enough visible samples were found, or no dispose of a NO_KEY topic ever reaches the keyed '
+                      'sample cache (fill_and_lock_local_datasample_cache passes only non-dispose changes on to the cache when the topic kind is NoKey, on every feasible path)')
+    # (a) the facade filters
+    filt = []
+    for b in fx.bodies:
+        if not b.key.startswith('dds::no_key::datareader::'):
+            continue
+        loops = natural_loops(b)
+        for bb, t in b.calls():
+            if callee_res(t).endswith(('DataSample::<D>::from_with_key', 'DataSample::<D>::from_with_key_ref')):
+                # is there an enclosing loop that also contains a query of the keyed reader?
+                requery = False
+                for lp in loops:
+                    body_blocks = lp[1]
+                    if bb in body_blocks and any(callee_res(t2).startswith('dds::with_key::datareader::DataReader') and callee_res(t2).rsplit('::', 1)[-1] in
+                                                 ('take', 'read', 'take_next_sample', 'read_next_sample', 'take_bare', 'read_bare')
+                                                 for b2, t2 in b.calls() if b2 in body_blocks):
+                        requery = True
+                filt.append((b, bb, requery))
+    rep.floor('R09.8', len(filt), 2, 'dispose filters in the no_key DataReader facade')
+    all_requery = bool(filt) and all(r for _b, _bb, r in filt)
+    # (b) the cache never gets a dispose on a NO_KEY topic
+    fl = fx.find('dds::with_key::datareader::DataReader::fill_and_lock_local_datasample_cache')
+    rep.analysed(fl)
+    og = Origins(fl, summaries=False)
+    fills = [bb for bb, t in fl.calls() if callee_res(t).endswith('fill_from_deserialized_cache_change')]
+    if not fills:
+        raise CheckBroken('fill_and_lock_local_datasample_cache: no call of fill_from_deserialized_cache_change')
+    nokey_calls = _nokey_eq_blocks(fl, og)
+    sp = SymPath(fl, fx)
+    filtered = True
+    n_paths = 0
+    for goal in fills:
+        for path in sp.paths(0, goal, through_heads=True):
+            st = sp.run(path, 'term')
+            if st.infeasible:
+                continue
+            n_paths += 1
+            nokey, dispose = _path_facts(st, nokey_calls)
+            if not (nokey is False or dispose is False):
+                filtered = False
+    filtered = filtered and n_paths > 0 and bool(nokey_calls)
+    rep.check(all_requery or filtered, 'R09.8', 'no_key::DataReader/dispose-counts-against-bound',
+              're-query loop in every facade filter' if all_requery else 'the keyed cache of a NO_KEY topic never receives a dispose (%d feasible paths to the cache fill examined)' % n_paths,
+              'the no_key DataReader drops disposes from a bounded result of the keyed DataReader without re-querying (%d filter site(s)), and a dispose received on a NO_KEY topic is '
+              'stored in the keyed sample cache: take_next_sample()/read_next_sample() return None and take(n)/read(n) come back short while samples are available; an application '
+              'that takes until nothing more is returned stops early and is not notified again' % len(filt), fl.where())
